@@ -8,5 +8,8 @@ CONSTANTS
   BodyKinds <- MCBodyKinds
   CacheError = TRUE
   CacheDefault = FALSE
+  HandlerDecidesEmpty = TRUE
+  KeepFirstError = TRUE
+  Contexts <- PlainOnly
   Depth = 4
 INVARIANT Emit
